@@ -20,7 +20,12 @@ pub struct PrintCase {
 }
 
 fn strategy_print(_t: Tier) -> BoxedStrategy<PrintCase> {
-    arb_fam_tt(0, 14).prop_map(|(fam, t)| PrintCase { fam, t }).boxed()
+    // the dynamic type has no size limit: about one case in 1500 prints a table of 15..=17 variables
+    prop_oneof![
+        1500 => arb_fam_tt(0, 14).prop_map(|(fam, t)| PrintCase { fam, t }),
+        1 => (15usize..=17).prop_flat_map(|n| arb_tt(n).prop_map(|t| PrintCase { fam: Fam::Dyn, t })),
+    ]
+    .boxed()
 }
 
 fn run_print(c: &PrintCase) -> Verdict {
@@ -193,7 +198,7 @@ fn enumerate_parse(t: Tier, shard: usize, nshards: usize, f: &mut dyn FnMut(Pars
 pub fn def() -> PropDef {
     PropDef {
         id: "C09",
-        rule: "print: cases = (family, table) n in 0..=12/14; to_hex_string / to_bin_string / Display / {:x} / {:b} are compared with the harness formatter written from the definition (most significant first, width max(1,2^n/4) resp. 2^n, lower case, `Lut<n>(...)`), the formatting traits under the specifications {:#x}, {:#b}, {:#}, {:>40}, {:<40x}, {:^80b}, {:+} must still print exactly that (space padding aside); and parsing the print must give the table back; exhaustive for n<=3 (quick) / n<=4 (thorough). parse: cases = (family, n in 0..=12, string): the print of a generated table with 0, 1 or 2 structured corruptions (replace / insert / delete / append / prepend a character from {+,-,space,g,x,G,X,_,NUL,newline,A-F,multi-byte UTF-8 incl. full-width digits} or a hex digit, at a position weighted towards multiples of 16 and both ends; upper-casing; truncation), random digit strings of the right width, and arbitrary short text. Oracle: the accept set is exactly `width` characters, all ASCII hex digits, value < 2^(2^n); inside it the result must be Ok and denote that number (strings containing upper-case digits may also be rejected); outside it the result must be Err; never a panic. Exhaustive: every 1-character ASCII string for n<=2 and every string over a 20-symbol alphabet {0,1,2,7,8,9,a,f,A,F,g,G,x,+,-,space,NUL,e-acute,euro,emoji} of length <= width+1 for n<=3 (quick) / n<=4 (thorough). Non-trivial = a string within one edit of an accepted one, or an accepted non-zero one.",
+        rule: "print: cases = (family, table) n in 0..=12/14 (about one Lut in 1500 has 15..=17 variables); to_hex_string / to_bin_string / Display / {:x} / {:b} are compared with the harness formatter written from the definition (most significant first, width max(1,2^n/4) resp. 2^n, lower case, `Lut<n>(...)`), the formatting traits under the specifications {:#x}, {:#b}, {:#}, {:>40}, {:<40x}, {:^80b}, {:+} must still print exactly that (space padding aside); and parsing the print must give the table back; exhaustive for n<=3 (quick) / n<=4 (thorough). parse: cases = (family, n in 0..=12, string): the print of a generated table with 0, 1 or 2 structured corruptions (replace / insert / delete / append / prepend a character from {+,-,space,g,x,G,X,_,NUL,newline,A-F,multi-byte UTF-8 incl. full-width digits} or a hex digit, at a position weighted towards multiples of 16 and both ends; upper-casing; truncation), random digit strings of the right width, and arbitrary short text. Oracle: the accept set is exactly `width` characters, all ASCII hex digits, value < 2^(2^n); inside it the result must be Ok and denote that number (strings containing upper-case digits may also be rejected); outside it the result must be Err; never a panic. Exhaustive: every 1-character ASCII string for n<=2 and every string over a 20-symbol alphabet {0,1,2,7,8,9,a,f,A,F,g,G,x,+,-,space,NUL,e-acute,euro,emoji} of length <= width+1 for n<=3 (quick) / n<=4 (thorough). Non-trivial = a string within one edit of an accepted one, or an accepted non-zero one.",
         assumptions: vec![
             "value() is the observation of a parsed table; whether an Ok table has stray bits is checked as `digit too large` through the accept set (and structurally in C02)",
             "upper-case hex digits may be accepted or rejected, as the property allows",
